@@ -4,6 +4,9 @@ package main
 // and exactly one aspect changed per case; key-set rotation histories.
 
 import (
+	"bytes"
+	"sync/atomic"
+	"github.com/chihaya/chihaya/pkg/stop"
 	"context"
 	"crypto"
 	"crypto/hmac"
@@ -106,6 +109,64 @@ func signRS256(k *rsa.PrivateKey, input string) []byte {
 	return sig
 }
 
+// jwt.lifecycle: the hook's own background loop (not the shim's synchronous refresh) and its Stop. The endpoint first
+// publishes k0 only; a token signed by k1 is refused; k1 is published and nothing else is done: within a few update
+// intervals the same token must be accepted. Stop must complete, the endpoint must see no further fetches afterwards
+// (the loop has ended), and a second Stop must complete as well.
+func jwtLifecycle(c *Ctx, keys []*rsa.PrivateKey) {
+	op := "jwt.lifecycle interval_ms=60"
+	c.Begin(op)
+	obs := func() (o string) {
+		defer func() {
+			if p := recover(); p != nil {
+				o = "PANIC " + strings.Fields(fmt.Sprint(p))[0]
+			}
+		}()
+		js := &jwkServer{keys: map[string]*rsa.PrivateKey{"k0": keys[0]}}
+		var fetches int32
+		js.srv = httptest.NewServer(http.HandlerFunc(func(w http.ResponseWriter, r *http.Request) {
+			atomic.AddInt32(&fetches, 1)
+			js.handler(w, r)
+		}))
+		defer js.srv.Close()
+		h, err := jwthook.NewHook(jwthook.Config{Issuer: "https://issuer.example", Audience: "chihaya", JWKSetURL: js.srv.URL, JWKUpdateInterval: 60 * time.Millisecond})
+		if err != nil {
+			return "new-failed"
+		}
+		ih := bytes.Repeat([]byte{7}, 20)
+		hb, _ := json.Marshal(map[string]interface{}{"alg": "RS256", "typ": "JWT", "kid": "k1"})
+		cb, _ := json.Marshal(map[string]interface{}{"iss": "https://issuer.example", "aud": "chihaya", "infohash": hex.EncodeToString(ih), "exp": time.Now().Unix() + 3600})
+		input := b64(hb) + "." + b64(cb)
+		tok := input + "." + b64(signRS256(keys[1], input))
+		ask := func() string {
+			req := &bittorrent.AnnounceRequest{InfoHash: bittorrent.InfoHashFromBytes(ih), Params: paramsStub{jwt: &tok}}
+			_, err := h.HandleAnnounce(context.Background(), req, &bittorrent.AnnounceResponse{})
+			return verdict(err)
+		}
+		before := ask()
+		js.mu.Lock()
+		js.keys["k1"] = keys[1]
+		js.mu.Unlock()
+		refreshed := false
+		for i := 0; i < 150 && !refreshed; i++ {
+			time.Sleep(20 * time.Millisecond)
+			refreshed = ask() == "accept"
+		}
+		st, ok := h.(stop.Stopper)
+		if !ok {
+			return "hook-is-no-stopper"
+		}
+		stopped, _ := waitStop(st.Stop(), 3*time.Second)
+		time.Sleep(250 * time.Millisecond) // a fetch that was in flight when Stop was called may still arrive
+		n1 := atomic.LoadInt32(&fetches)
+		time.Sleep(600 * time.Millisecond) // ten update intervals
+		n2 := atomic.LoadInt32(&fetches)
+		second, _ := waitStop(st.Stop(), 3*time.Second)
+		return fmt.Sprintf("before=%s refreshed_in_background=%s stopped=%s quiet_after_stop=%s second_stop=%s", before, b01(refreshed), b01(stopped), b01(n1 == n2), b01(second))
+	}()
+	c.Emit(op, obs)
+}
+
 func runC15(c *Ctx) {
 	r := c.R
 	nKeys := 3
@@ -117,6 +178,7 @@ func runC15(c *Ctx) {
 		}
 		keys = append(keys, k)
 	}
+	jwtLifecycle(c, keys)
 	js := &jwkServer{keys: map[string]*rsa.PrivateKey{}}
 	js.srv = httptest.NewServer(http.HandlerFunc(js.handler))
 	defer js.srv.Close()
